@@ -290,6 +290,20 @@ def clonepoint_stream(rng, pid):
     return cases
 
 
+def bigarr_stream(rng, pid):
+    """a consumed array of 288 elements (more than 4 KiB inline): every ending after a few pulls"""
+    cases = []
+    i = 0
+    for owner in ("drop", "intoseq all", "intoseq 1", "intoseq 0"):
+        for pr in ([["next", "next"]], [["chunk 5 1", "next"]], [["bufnew 3", "bufnext all"]], [[]], [["next", "skip"]]):
+            c = make_source(rng, "%s-big%d" % (pid, i), "array", 288)
+            c.threads = [list(t) for t in pr]
+            c.owner = owner
+            cases.append(c)
+            i += 1
+    return cases
+
+
 def zst_stream(rng, pid):
     """zero-sized element types: `ptr.add(i) == ptr`, slices of any length occupy no memory"""
     cases = []
@@ -735,7 +749,7 @@ def stream_for0(pid, tier, seed):
                             c.owner = owner
                             cases.append(c)
         cases += droppanic_stream(rng, tier, pid) + zst_stream(rng, pid) + closure_panic_stream(rng, pid) + next_then_nth_stream(rng, pid, kinds=("vec", "array", "iter"))
-        cases += spare_stream(rng, pid) + probe_panic_ledger_stream(rng, pid)
+        cases += spare_stream(rng, pid) + probe_panic_ledger_stream(rng, pid) + bigarr_stream(rng, pid)
         return cases
     if pid == "C09":
         cases = defects + pulls_stream(rng, tier, pid, n_random=1000 if not big else 40000, prof=dict(skip=True))
